@@ -1,11 +1,15 @@
 //@@ unit props=C04,C06,C20
-// Unit ods: src/ods.rs get_range (the mechanism of C04) and is_empty_row, verbatim text.
+// Unit ods: src/ods.rs, verbatim text: get_range (the mechanism of C04) and is_empty_row; read_row (cell-repeat logic) and
+// check_for_password_protected (C20) against a ghost model of quick-xml / zip (A-xml, A-zip); get_datatype is NOT under proof.
 #![allow(unused_imports, dead_code, unused_variables, unused_mut, unused_assignments)]
 use vstd::prelude::*;
 use vstd::std_specs::iter::IteratorSpec;
 use vstd::std_specs::cmp::PartialEqSpec;
 use std::slice::{Windows, Iter};
 use std::iter::{Enumerate, Skip, Take, Zip};
+use std::borrow::Cow;
+use std::ops::Deref;
+use std::io::{Read, Seek};
 
 verus! {
 
@@ -625,11 +629,11 @@ verif_windows_enumerate(cols, 2)
                         found2 = true;
                         plast = p as int;
                     }
-//@@ after /if p > col_max \{[^}]*\}\s*\}/
+//@@ after /if p [<>=]+ col_max \{[^}]*\}\s*\}/
                 proof {
                     if !found2 { assert(row@[pfirst] != dflt::<T>()); assert(false); }
                 }
-//@@ after /if p > col_max \{[^}]*\}\s*\}\s*\}/
+//@@ after /if p [<>=]+ col_max \{[^}]*\}\s*\}\s*\}/
             proof {
                 if !found {
                     assert forall|c: int| !nd_at(cs, co, k, c) by {
@@ -734,14 +738,14 @@ verif_windows_enumerate(cols, 2)
                     assert(blank_row(cs, co, i));
                     assert(i != x0 && i != m);
                 }
-//@@ before /if empty_row_repeats > 0 \{/
+//@@ before /if empty_row_repeats >/
             let ghost wc: int = choose|j: int| 0 <= j < row@.len() && row@[j] != dflt::<T>();
             proof {
                 assert(nd_at(cs, co, i, wc));
                 assert(col_min <= wc <= col_max);
                 assert(i <= x0) by { if i > x0 { assert(blank_row(cs, co, i)); } }
             }
-//@@ before /row_max = row_max \+ empty_row_repeats/
+//@@ before /\n\s*row_max = row_max /#0of2
                 proof {
                     if reps_pos(rp) {
                         assert(pb < i);
@@ -760,9 +764,9 @@ verif_windows_enumerate(cols, 2)
                         reps_pos(rp) ==> empty_row_repeats == rep_sum(rp, i) - rep_sum(rp, pb),
                         reps_pos(rp) && good ==> col_min == 0
                             && new_cells@ == ecells(cs, co, rp, col_min as int, col_max as int, l0, rep_sum(rp, pb) + it2.index@),
-//@@ before /new_cells\.extend_from_slice\(&empty_cells\);/
+//@@ before /new_cells\.extend_from_slice\(/#0of5
                     let ghost v0 = new_cells@;
-//@@ after /new_cells\.extend_from_slice\(&empty_cells\);/
+//@@ after /new_cells\.extend_from_slice\([^;]*;/#0of5
                     proof {
                         lemma_extend::<T>(v0, empty_cells@, new_cells@);
                         if reps_pos(rp) && good {
@@ -780,7 +784,7 @@ verif_windows_enumerate(cols, 2)
                     }
 //@@ before /\n\s*empty_row_repeats = 0;/
                 proof { pb = i; }
-//@@ before /if row_repeats > 1 \{/
+//@@ before /if row_repeats >/
             proof {
                 if reps_pos(rp) {
                     assert(rp[i] >= 1);
@@ -802,20 +806,20 @@ verif_windows_enumerate(cols, 2)
 //@@ before /match row\.len\(\)\.cmp/
                 let ghost v0 = new_cells@;
                 let ghost mut v1 = new_cells@;
-//@@ after /new_cells\.extend_from_slice\(&row\[col_min\.\.\]\);/#0of2
+//@@ after /new_cells\.extend_from_slice\([^;]*;/#1of5
                         proof {
                             lemma_extend::<T>(v0, row@.subrange(col_min as int, row@.len() as int), new_cells@);
                             v1 = new_cells@;
                         }
-//@@ after /new_cells\.extend_from_slice\(&empty_cells\[row\.len\(\)\.\.\]\);/
+//@@ after /new_cells\.extend_from_slice\([^;]*;/#2of5
                         proof {
                             lemma_extend::<T>(v1, empty_cells@.subrange(row@.len() as int, col_max + 1), new_cells@);
                         }
-//@@ after /new_cells\.extend_from_slice\(&row\[col_min\.\.\]\);/#1of2
+//@@ after /new_cells\.extend_from_slice\([^;]*;/#3of5
                         proof {
                             lemma_extend::<T>(v0, row@.subrange(col_min as int, row@.len() as int), new_cells@);
                         }
-//@@ after /new_cells\.extend_from_slice\(&row\[col_min\.\.=col_max\]\);/
+//@@ after /new_cells\.extend_from_slice\([^;]*;/#4of5
                         proof {
                             lemma_extend::<T>(v0, row@.subrange(col_min as int, col_max + 1), new_cells@);
                         }
@@ -877,6 +881,578 @@ verif_windows_enumerate(cols, 2)
 verif_sum_take(rows_repeats, i)
 //@@ replace /row\.iter\(\)\.rposition\(/ slice::Iter::rposition cannot be given an assume_specification (its where-clause makes the path resolve to the provided trait method); the call is moved verbatim into the trusted wrapper verif_rposition
 verif_rposition(row, 
+//@@ end
+
+
+// #####################################################################################################################
+// PART 2: the XML-event-consuming functions (A-xml / A-zip ghost model)
+// #####################################################################################################################
+
+// =====================================================================================================================
+// A-xml / A-zip: GHOST MODEL of quick-xml 0.37 (as configured by ods.rs: trim_text(false), expand_empty_elements = true,
+// check_end_names = false, check_comments = false) and of the zip container.  Everything in this section is TRUSTED.
+// A reader owns the ghost sequence `events()` of the results its successive `read_event_into` calls deliver and a position `pos()`.
+// ASSUMED AND NOT VERIFIED: that quick-xml turns the bytes of the zip part into this sequence (tokenisation, `<a/>` delivered as
+// Start + End, entity / character references resolved by `unescape` / `decode_and_unescape_value`, white space preserved).
+// =====================================================================================================================
+pub mod quick_xml {
+    pub struct Error;
+    pub mod events { pub mod attributes { pub struct AttrError; } }
+    pub mod encoding { pub struct EncodingError; }
+}
+pub mod zip { pub mod result { pub enum ZipError { FileNotFound, Other } } }
+use zip::result::ZipError;
+#[verifier::external_type_specification] #[verifier::external_body] pub struct ExIoError(std::io::Error);
+#[verifier::external_type_specification] #[verifier::external_body] pub struct ExParseFloatError(std::num::ParseFloatError);
+#[verifier::external_type_specification] #[verifier::external_body] pub struct ExParseIntError(std::num::ParseIntError);
+#[verifier::external_type_specification] #[verifier::external_body] pub struct ExParseBoolError(std::str::ParseBoolError);
+#[verifier::external_trait_specification] pub trait ExRead { type ExternalTraitSpecificationFor: std::io::Read; }
+#[verifier::external_trait_specification] pub trait ExSeek { type ExternalTraitSpecificationFor: std::io::Seek; }
+
+//@@ item src/ods.rs enum OdsError
+
+pub enum EvKind { Start, End, Text, Other, Error }
+pub ghost struct Attr {
+    pub key: Seq<u8>,     // qualified attribute name
+    pub raw: Seq<u8>,     // value bytes as written between the quotes (what `Attribute::value` holds)
+    pub val: Seq<char>,   // value with entity / character references resolved (what `decode_and_unescape_value` returns)
+    pub val_ok: bool,     // decoding / unescaping the value succeeds
+    pub err: bool,        // malformed attribute: the `Attributes` iterator yields Err(AttrError) for it
+}
+pub ghost struct Ev {
+    pub kind: EvKind,
+    pub name: Seq<u8>,     // qualified tag name (Start / End)
+    pub attrs: Seq<Attr>,  // attributes in document order (Start)
+    pub text: Seq<char>,   // content of a Text event after unescaping
+    pub text_ok: bool,     // `unescape()` succeeds on this Text event
+}
+// TRUSTED: A-xml -- quick_xml::name::QName (a tuple struct over the qualified-name bytes; `==` compares the bytes)
+pub struct QName<'a>(pub &'a [u8]);
+impl<'a> PartialEq for QName<'a> {
+    #[verifier::external_body]
+    fn eq(&self, o: &QName<'a>) -> (r: bool) ensures r == (self.0@ =~= o.0@) { unimplemented!() }
+}
+#[verifier::external_body]
+pub struct BytesStart<'a> { _p: core::marker::PhantomData<&'a ()> }
+#[verifier::external_body]
+pub struct BytesEnd<'a> { _p: core::marker::PhantomData<&'a ()> }
+#[verifier::external_body]
+pub struct BytesText<'a> { _p: core::marker::PhantomData<&'a ()> }
+// `Other` stands for Comment / CData / PI / Decl / DocType (never named by the verified code; `Empty` cannot occur with expand_empty_elements)
+pub enum Event<'a> { Start(BytesStart<'a>), End(BytesEnd<'a>), Text(BytesText<'a>), Other, Eof }
+impl<'a> BytesStart<'a> {
+    pub uninterp spec fn ev(&self) -> Ev;
+    #[verifier::external_body]
+    pub fn name(&self) -> (r: QName<'_>) ensures r.0@ == self.ev().name { unimplemented!() }
+}
+impl<'a> BytesEnd<'a> {
+    pub uninterp spec fn ev(&self) -> Ev;
+    #[verifier::external_body]
+    pub fn name(&self) -> (r: QName<'_>) ensures r.0@ == self.ev().name { unimplemented!() }
+}
+impl<'a> BytesText<'a> {
+    pub uninterp spec fn ev(&self) -> Ev;
+}
+/// the result `read_event_into` delivers for the ghost event e
+pub open spec fn ev_result<'b>(r: Result<Event<'b>, quick_xml::Error>, e: Ev) -> bool {
+    match e.kind {
+        EvKind::Start => r matches Ok(Event::Start(b)) && b.ev() == e,
+        EvKind::End => r matches Ok(Event::End(b)) && b.ev() == e,
+        EvKind::Text => r matches Ok(Event::Text(b)) && b.ev() == e,
+        EvKind::Other => r matches Ok(Event::Other),
+        EvKind::Error => r is Err,
+    }
+}
+// A-zip: zip::read::{ZipArchive, ZipFile}; the content returned for a name depends only on the archive and the name
+#[verifier::external_body] #[verifier::reject_recursive_types(RS)]
+pub struct ZipArchive<RS> { _p: core::marker::PhantomData<RS> }
+#[verifier::external_body]
+pub struct ZipFile<'a> { _p: core::marker::PhantomData<&'a ()> }
+#[verifier::external_body] #[verifier::reject_recursive_types(R)]
+pub struct BufReader<R> { _p: core::marker::PhantomData<R> }
+/// the XML events of the part `name`, None if the archive has no (readable) entry of that name
+pub uninterp spec fn part_events<RS>(zip: ZipArchive<RS>, name: Seq<char>) -> Option<Seq<Ev>>;
+impl<'a> ZipFile<'a> { pub uninterp spec fn events(&self) -> Seq<Ev>; }
+impl<R> BufReader<R> {
+    pub uninterp spec fn inner(&self) -> R;
+    #[verifier::external_body]
+    pub fn new(r: R) -> (b: Self) ensures b.inner() == r { unimplemented!() }
+}
+impl<RS: Read + Seek> ZipArchive<RS> {
+    // TRUSTED: A-zip
+    #[verifier::external_body]
+    pub fn by_name<'a>(&'a mut self, name: &str) -> (r: Result<ZipFile<'a>, ZipError>)
+        ensures
+            *final(self) == *old(self),
+            part_events(*old(self), name@) matches Some(evs) ==> r is Ok && r->Ok_0.events() == evs,
+            part_events(*old(self), name@) is None ==> r is Err,
+    { unimplemented!() }
+}
+pub struct Config { pub check_end_names: bool, pub check_comments: bool, pub expand_empty_elements: bool, pub trim: bool }
+impl Config {
+    #[verifier::external_body]
+    pub fn trim_text(&mut self, trim: bool) { unimplemented!() }
+}
+#[verifier::external_body] #[verifier::reject_recursive_types(R)]
+pub struct XmlReader<R> { _p: core::marker::PhantomData<R> }
+impl<R> XmlReader<R> {
+    pub uninterp spec fn events(&self) -> Seq<Ev>;
+    pub uninterp spec fn pos(&self) -> nat;
+}
+impl<'a> XmlReader<BufReader<ZipFile<'a>>> {
+    // TRUSTED: A-xml
+    #[verifier::external_body]
+    pub fn from_reader(b: BufReader<ZipFile<'a>>) -> (r: Self) ensures r.events() == b.inner().events(), r.pos() == 0 { unimplemented!() }
+    // TRUSTED: A-xml -- configuration does not touch the stream
+    #[verifier::external_body]
+    pub fn config_mut(&mut self) -> (c: &mut Config) ensures final(self).events() == old(self).events(), final(self).pos() == old(self).pos() { unimplemented!() }
+    // TRUSTED: A-xml -- returns events[pos] and advances; at the end of input returns Eof for ever
+    #[verifier::external_body]
+    pub fn read_event_into<'b>(&mut self, buf: &'b mut Vec<u8>) -> (r: Result<Event<'b>, quick_xml::Error>)
+        ensures
+            final(self).events() == old(self).events(),
+            old(self).pos() >= old(self).events().len() ==> (r matches Ok(Event::Eof)) && final(self).pos() == old(self).pos(),
+            old(self).pos() < old(self).events().len() ==>
+                final(self).pos() == old(self).pos() + 1 && ev_result(r, old(self).events()[old(self).pos() as int]),
+    { unimplemented!() }
+}
+//@@ item src/ods.rs type OdsReader
+
+// =====================================================================================================================
+// C20 (ods): "every ods whose manifest declares encryption data" is reported as password protected, and only those.
+// ODF 1.2 part 3, 4.3 <manifest:file-entry> may contain 4.4 <manifest:encryption-data>.
+// =====================================================================================================================
+pub open spec fn n_file_entry() -> Seq<u8> { b"manifest:file-entry"@ }
+pub open spec fn n_encryption_data() -> Seq<u8> { b"manifest:encryption-data"@ }
+pub open spec fn is_start(e: Ev, name: Seq<u8>) -> bool { e.kind is Start && e.name =~= name }
+/// index of the first event at which the reader reports an error (len if none)
+pub open spec fn first_err(evs: Seq<Ev>, i: int) -> int
+    decreases evs.len() - i
+{
+    if i < 0 || i >= evs.len() { evs.len() as int } else if evs[i].kind is Error { i } else { first_err(evs, i + 1) }
+}
+/// the manifest declares encryption data: an encryption-data element inside / after a file-entry element, read without error
+pub open spec fn declares_encryption(evs: Seq<Ev>) -> bool {
+    exists|i: int, j: int| 0 <= i < j < first_err(evs, 0) && is_start(#[trigger] evs[i], n_file_entry()) && is_start(#[trigger] evs[j], n_encryption_data())
+}
+
+proof fn lemma_first_err(evs: Seq<Ev>, i: int, k: int)
+    requires 0 <= i <= k <= evs.len(), forall|j: int| i <= j < k ==> !((#[trigger] evs[j]).kind is Error),
+    ensures first_err(evs, i) >= k, k < evs.len() && evs[k].kind is Error ==> first_err(evs, i) == k, first_err(evs, i) <= evs.len(),
+        k < evs.len() && !(evs[k].kind is Error) ==> first_err(evs, i) > k,
+    decreases k - i,
+{
+    if i < k { lemma_first_err(evs, i + 1, k); }
+    else if i < evs.len() && !(evs[i].kind is Error) { lemma_first_err_le(evs, i + 1); }
+}
+proof fn lemma_first_err_le(evs: Seq<Ev>, i: int)
+    requires 0 <= i <= evs.len(),
+    ensures i <= first_err(evs, i) <= evs.len(),
+    decreases evs.len() - i,
+{
+    if i < evs.len() && !(evs[i].kind is Error) { lemma_first_err_le(evs, i + 1); }
+}
+
+pub open spec fn manifest<RS>(zip: ZipArchive<RS>) -> Option<Seq<Ev>> { part_events(zip, "META-INF/manifest.xml"@) }
+
+//@@ fn src/ods.rs check_for_password_protected props=C20 entry ret=r
+//@@ sig
+    ensures
+        //# C20.ods_manifest_missing
+        manifest(*old(zip)) is None ==> r is Err && !(r->Err_0 is Password),
+        //# C20.ods_encrypted_reported
+        manifest(*old(zip)) is Some && declares_encryption(manifest(*old(zip))->Some_0) ==> r is Err && r->Err_0 is Password,
+        //# C20.ods_unencrypted_not_reported
+        manifest(*old(zip)) is Some && !declares_encryption(manifest(*old(zip))->Some_0) ==> !(r is Err && r->Err_0 is Password),
+        //# C20.ods_unencrypted_ok
+        manifest(*old(zip)) is Some && !declares_encryption(manifest(*old(zip))->Some_0)
+            && first_err(manifest(*old(zip))->Some_0, 0) >= manifest(*old(zip))->Some_0.len() ==> r is Ok,
+//@@ before /let mut buf = Vec::new\(\);/
+    let ghost evs = reader.events();
+    let ghost mut scanned = false;
+    let ghost mut i0: int = 0;
+    proof { assert(manifest(*old(zip)) == Some(evs)); }
+//@@ loop 0
+        invariant
+            evs == reader.events(), manifest(*old(zip)) == Some(evs), reader.pos() <= evs.len(),
+            forall|k: int| 0 <= k < reader.pos() ==> !((#[trigger] evs[k]).kind is Error),
+            !scanned ==> forall|k: int| 0 <= k < reader.pos() ==> !is_start(#[trigger] evs[k], n_file_entry()),
+            scanned ==> reader.pos() >= evs.len() && !declares_encryption(evs),
+        ensures
+            reader.pos() >= evs.len(),
+        decreases evs.len() - reader.pos(),
+//@@ before /match reader\.read_event_into\(&mut buf\)/
+        proof { lemma_first_err(evs, 0, reader.pos() as int); }
+//@@ loop 1
+                    invariant
+                        evs == reader.events(), manifest(*old(zip)) == Some(evs), reader.pos() <= evs.len(), !scanned,
+                        forall|k: int| 0 <= k < reader.pos() ==> !((#[trigger] evs[k]).kind is Error),
+                        0 <= i0 < reader.pos(), is_start(evs[i0], n_file_entry()),
+                        forall|k: int| 0 <= k < i0 ==> !is_start(#[trigger] evs[k], n_file_entry()),
+                        forall|k: int| i0 < k < reader.pos() ==> !is_start(#[trigger] evs[k], n_encryption_data()),
+                    ensures
+                        reader.pos() >= evs.len(),
+                    decreases evs.len() - reader.pos(),
+//@@ before /match reader\.read_event_into\(&mut inner\)/
+                    proof { lemma_first_err(evs, 0, reader.pos() as int); }
+//@@ before /loop \{\s*match reader\.read_event_into\(&mut inner\)/
+                proof { i0 = reader.pos() - 1; }
+//@@ before /inner\.clear\(\)/
+                proof {
+                    lemma_first_err(evs, 0, evs.len() as int);
+                    assert(!declares_encryption(evs));
+                    scanned = true;
+                }
+//@@ before /\n    Ok\(\(\)\)/
+    proof { lemma_first_err(evs, 0, evs.len() as int); }
+//@@ end
+
+
+// =====================================================================================================================
+// C04 (second half): read_row / get_datatype
+// =====================================================================================================================
+//@@ item src/lib.rs enum CellErrorType keep_attrs
+//@@ item src/datatype.rs enum ExcelDateTimeType keep_attrs
+//@@ item src/datatype.rs struct ExcelDateTime keep_attrs
+//@@ item src/datatype.rs enum Data keep_attrs
+#[verifier::external_body] fn verif_opaque_string() -> String { String::new() }
+
+// TRUSTED: A-xml -- quick_xml::events::attributes::{Attribute, Attributes}: `BytesStart::attributes()` iterates over the attributes of
+// the start tag in document order; each item is Ok(Attribute { key, value }) with the qualified attribute name and the RAW value bytes,
+// or Err(AttrError) for a malformed attribute.
+pub struct Attribute<'a> { pub key: QName<'a>, pub value: Cow<'a, [u8]> }
+pub uninterp spec fn cow_bytes<'a>(c: Cow<'a, [u8]>) -> Seq<u8>;
+#[verifier::external_body]
+pub struct Attributes<'a> { _p: core::marker::PhantomData<&'a ()> }
+impl<'a> Attributes<'a> {
+    /// attributes not yet handed out
+    pub uninterp spec fn rem(&self) -> Seq<Attr>;
+}
+impl<'a> Iterator for Attributes<'a> {
+    type Item = Result<Attribute<'a>, quick_xml::events::attributes::AttrError>;
+    // TRUSTED: A-xml
+    #[verifier::external_body]
+    fn next(&mut self) -> (r: Option<Result<Attribute<'a>, quick_xml::events::attributes::AttrError>>)
+        ensures
+            old(self).rem().len() == 0 ==> r is None && final(self).rem() == old(self).rem(),
+            old(self).rem().len() > 0 ==> r is Some && final(self).rem() == old(self).rem().skip(1)
+                && (old(self).rem()[0].err ==> r->Some_0 is Err)
+                && (!old(self).rem()[0].err ==> r->Some_0 is Ok && (r->Some_0->Ok_0).key.0@ == old(self).rem()[0].key
+                     && cow_bytes((r->Some_0->Ok_0).value) == old(self).rem()[0].raw),
+    { unimplemented!() }
+}
+impl<'a> BytesStart<'a> {
+    // TRUSTED: A-xml
+    #[verifier::external_body]
+    pub fn attributes(&self) -> (r: Attributes<'_>) ensures r.rem() == self.ev().attrs { unimplemented!() }
+}
+/// `decoder().decode(bytes)` followed by `str::parse::<usize>()`: the decimal number the bytes spell, None if they do not
+pub uninterp spec fn parse_usize(raw: Seq<u8>) -> Option<usize>;
+impl<'a> XmlReader<BufReader<ZipFile<'a>>> {
+    // TRUSTED: A-xml -- reads events until the End tag with this qualified name at nesting depth 0
+    #[verifier::external_body]
+    pub fn read_to_end_into(&mut self, end: QName<'_>, buf: &mut Vec<u8>) -> (r: Result<(), quick_xml::Error>)
+        ensures
+            final(self).events() == old(self).events(),
+            final(self).pos() >= old(self).pos(),
+            r is Ok ==> final(self).pos() == rte_next(old(self).events(), old(self).pos(), end.0@),
+    { unimplemented!() }
+}
+// TRUSTED: the body is the real expression `reader.decoder().decode(&a.value)?.parse().map_err(OdsError::ParseInt)?` (without the
+// trailing `?`), moved into a function: Decoder::decode, Cow deref, str::parse::<usize> and the From conversions of `?` are library code
+// outside vstd.  usize::from_str doc: accepts an optional `+` sign followed by decimal digits; Err on anything else or on overflow.
+#[verifier::external_body]
+fn verif_parse_repeats(reader: &OdsReader<'_>, a: &Attribute<'_>) -> (r: Result<usize, OdsError>)
+    ensures
+        parse_usize(cow_bytes(a.value)) matches Some(n) ==> r == Ok::<usize, OdsError>(n),
+        parse_usize(cow_bytes(a.value)) is None ==> r is Err,
+{
+    unimplemented!()
+}
+
+// TRUSTED: `#[derive(Clone)]` on Data yields a value equal to the original (Verus attaches no specification to the derived impl)
+#[verifier::external_body]
+pub proof fn axiom_data_clone()
+    ensures forall|a: Data, b: Data| call_ensures(<Data as Clone>::clone, (&a,), b) ==> a == b,
+{}
+// TRUSTED: calamine's `DataType::is_empty` for Data is `*self == Data::Empty` (src/datatype.rs:48; derived PartialEq)
+pub trait DataType { fn is_empty(&self) -> bool; }
+impl DataType for Data {
+    #[verifier::external_body]
+    fn is_empty(&self) -> (r: bool) ensures r == (self is Empty) { unimplemented!() }
+}
+// what `from_err!(quick_xml::Error, OdsError, Xml)` (macro of src/utils.rs) expands to
+impl From<quick_xml::Error> for OdsError { fn from(e: quick_xml::Error) -> (r: OdsError) { OdsError::Xml(e) } }
+impl vstd::std_specs::convert::FromSpecImpl<quick_xml::Error> for OdsError {
+    open spec fn obeys_from_spec() -> bool { true }
+    open spec fn from_spec(e: quick_xml::Error) -> Self { OdsError::Xml(e) }
+}
+
+pub open spec fn n_cell() -> Seq<u8> { b"table:table-cell"@ }
+pub open spec fn n_covered() -> Seq<u8> { b"table:covered-table-cell"@ }
+pub open spec fn n_row() -> Seq<u8> { b"table:table-row"@ }
+pub open spec fn n_ncr() -> Seq<u8> { b"table:number-columns-repeated"@ }
+pub open spec fn is_cell_start(e: Ev) -> bool { e.kind is Start && (e.name =~= n_cell() || e.name =~= n_covered()) }
+
+/// ODF 1.2 19.675 table:number-columns-repeated: "specifies the number of successive columns in which a cell is repeated"; default 1.
+/// None: the attribute list is malformed before the attribute is found, or the value is not a number.
+pub open spec fn rep_scan(attrs: Seq<Attr>) -> Option<usize>
+    decreases attrs.len()
+{
+    if attrs.len() == 0 { Some(1usize) }
+    else if attrs[0].err { None }
+    else if attrs[0].key =~= n_ncr() { parse_usize(attrs[0].raw) }
+    else { rep_scan(attrs.skip(1)) }
+}
+/// NOT VERIFIED (get_datatype is not under proof, see below): the typed value, the formula text and the "element already closed" flag
+/// that get_datatype derives from a cell's attributes and content, and the reader position it leaves
+pub uninterp spec fn gd_value(evs: Seq<Ev>, pos: nat, attrs: Seq<Attr>) -> Data;
+pub uninterp spec fn gd_formula(evs: Seq<Ev>, pos: nat, attrs: Seq<Attr>) -> Seq<char>;
+pub uninterp spec fn gd_closed(evs: Seq<Ev>, pos: nat, attrs: Seq<Attr>) -> bool;
+pub uninterp spec fn gd_next(evs: Seq<Ev>, pos: nat, attrs: Seq<Attr>) -> nat;
+/// position after `read_to_end_into(name)` started at pos
+pub uninterp spec fn rte_next(evs: Seq<Ev>, pos: nat, name: Seq<u8>) -> nat;
+
+pub ghost struct CellEl { pub n: usize, pub v: Data, pub f: Seq<char> }
+/// the cell element whose start tag is event p (content starts at p + 1)
+pub open spec fn cell_el(evs: Seq<Ev>, p: nat) -> CellEl {
+    CellEl { n: rep_scan(evs[p as int].attrs).unwrap_or(1), v: gd_value(evs, p + 1, evs[p as int].attrs), f: gd_formula(evs, p + 1, evs[p as int].attrs) }
+}
+/// reader position after the cell element whose start tag is event p
+pub open spec fn cell_next(evs: Seq<Ev>, p: nat) -> nat {
+    let a = evs[p as int].attrs;
+    if gd_closed(evs, p + 1, a) { gd_next(evs, p + 1, a) } else { rte_next(evs, gd_next(evs, p + 1, a), evs[p as int].name) }
+}
+/// the cell elements of the row whose content starts at event p, in document order
+pub open spec fn row_cells(evs: Seq<Ev>, p: nat) -> Seq<CellEl>
+    decreases (if p <= evs.len() { evs.len() - p } else { 0 })
+{
+    if p >= evs.len() || !is_cell_start(evs[p as int]) || cell_next(evs, p) <= p { Seq::empty() }
+    else { seq![cell_el(evs, p)] + row_cells(evs, cell_next(evs, p)) }
+}
+/// THE LOGICAL ROW: every cell element contributes n copies of its value
+pub open spec fn expand_v(cl: Seq<CellEl>) -> Seq<Data>
+    decreases cl.len()
+{
+    if cl.len() == 0 { Seq::empty() } else { expand_v(cl.drop_last()) + Seq::new(cl.last().n as nat, |i: int| cl.last().v) }
+}
+pub open spec fn expand_f(cl: Seq<CellEl>) -> Seq<Seq<char>>
+    decreases cl.len()
+{
+    if cl.len() == 0 { Seq::empty() } else { expand_f(cl.drop_last()) + Seq::new(cl.last().n as nat, |i: int| cl.last().f) }
+}
+/// `out` is the logical row `full` up to a dropped run of trailing empty cells
+pub open spec fn row_v_ok(full: Seq<Data>, out: Seq<Data>) -> bool {
+    out.len() <= full.len() && out =~= full.take(out.len() as int) && forall|i: int| out.len() <= i < full.len() ==> full[i] is Empty
+}
+pub open spec fn row_f_ok(full: Seq<Seq<char>>, out: Seq<Seq<char>>) -> bool {
+    out.len() <= full.len() && out =~= full.take(out.len() as int) && forall|i: int| out.len() <= i < full.len() ==> full[i].len() == 0
+}
+pub open spec fn strs(v: Seq<String>) -> Seq<Seq<char>> { Seq::new(v.len(), |i: int| v[i]@) }
+pub open spec fn empties(n: int) -> Seq<Data> { Seq::new(n as nat, |i: int| Data::Empty) }
+pub open spec fn emptyf(n: int) -> Seq<Seq<char>> { Seq::new(n as nat, |i: int| Seq::<char>::empty()) }
+pub open spec fn copies_v(n: int, v: Data) -> Seq<Data> { Seq::new(n as nat, |i: int| v) }
+pub open spec fn copies_f(n: int, f: Seq<char>) -> Seq<Seq<char>> { Seq::new(n as nat, |i: int| f) }
+proof fn lemma_strs_push(v: Seq<String>, st: String)
+    ensures strs(v.push(st)) =~= strs(v).push(st@),
+{}
+proof fn lemma_expand_push(cl: Seq<CellEl>, el: CellEl)
+    ensures
+        expand_v(cl.push(el)) =~= expand_v(cl) + copies_v(el.n as int, el.v),
+        expand_f(cl.push(el)) =~= expand_f(cl) + copies_f(el.n as int, el.f),
+{
+    assert(cl.push(el).drop_last() =~= cl);
+    assert(cl.push(el).last() == el);
+}
+
+// type-level stand-ins needed only so that the (unverified, external_body) text of get_datatype type-checks
+#[verifier::external_body]
+pub struct Decoder { _p: core::marker::PhantomData<()> }
+impl Decoder {
+    #[verifier::external_body]
+    pub fn decode<'b>(&self, bytes: &'b [u8]) -> Result<Cow<'b, str>, quick_xml::encoding::EncodingError> { unimplemented!() }
+}
+impl<'a> XmlReader<BufReader<ZipFile<'a>>> {
+    #[verifier::external_body]
+    pub fn decoder(&self) -> Decoder { unimplemented!() }
+}
+impl<'a> Attribute<'a> {
+    #[verifier::external_body]
+    pub fn decode_and_unescape_value(&self, d: Decoder) -> Result<Cow<'a, str>, quick_xml::Error> { unimplemented!() }
+}
+impl<'a> BytesText<'a> {
+    #[verifier::external_body]
+    pub fn unescape(&self) -> Result<Cow<'a, str>, quick_xml::Error> { unimplemented!() }
+}
+impl<'a> BytesStart<'a> {
+    #[verifier::external_body]
+    pub fn try_get_attribute(&self, name: &str) -> Result<Option<Attribute<'_>>, quick_xml::events::attributes::AttrError> { unimplemented!() }
+}
+impl From<quick_xml::encoding::EncodingError> for OdsError { #[verifier::external_body] fn from(e: quick_xml::encoding::EncodingError) -> OdsError { unimplemented!() } }
+impl From<quick_xml::events::attributes::AttrError> for OdsError { #[verifier::external_body] fn from(e: quick_xml::events::attributes::AttrError) -> OdsError { unimplemented!() } }
+
+// NOT VERIFIED -- `external_body`: get_datatype's text needs Decoder::decode, decode_and_unescape_value, BytesText::unescape,
+// try_get_attribute, str::parse::<f64/usize>, byte-string-literal match patterns and String building; that is outside what this unit
+// could put under proof in the time available.  Its contract here only names its results (uninterpreted) and says that it moves the
+// reader forward without touching the cell vectors; the typing clauses of C04 for it are NOT established by this unit.
+//@@ fn src/ods.rs get_datatype props=C04 ret=r external_body
+//@@ sig
+    ensures
+        final(reader).events() == old(reader).events(),
+        final(reader).pos() >= old(reader).pos(),
+        r is Ok ==> r->Ok_0.0 == gd_value(old(reader).events(), old(reader).pos(), atts.rem())
+            && r->Ok_0.1@ == gd_formula(old(reader).events(), old(reader).pos(), atts.rem())
+            && r->Ok_0.2 == gd_closed(old(reader).events(), old(reader).pos(), atts.rem())
+            && final(reader).pos() == gd_next(old(reader).events(), old(reader).pos(), atts.rem()),
+//@@ end
+
+//@@ fn src/ods.rs read_row props=C04 entry ret=r r4
+//@@ r6 1
+//@@ replace /a\.map_err\(OdsError::XmlAttr\)/ Verus does not support a datatype constructor as a function value; eta-expanded
+a.map_err(|e| -> (oe: OdsError) ensures oe is XmlAttr { OdsError::XmlAttr(e) })
+//@@ replace /reader\s*\.decoder\(\)\s*\.decode\(&a\.value\)\?\s*\.parse\(\)\s*\.map_err\(OdsError::ParseInt\)/ decoder, Cow deref, str::parse and the From conversions are library code outside vstd; the expression is moved verbatim into the trusted wrapper verif_parse_repeats
+verif_parse_repeats(reader, &a)
+//@@ sig
+    ensures
+        //# C04.row_frame_events
+        r is Ok ==> final(reader).events() == old(reader).events(),
+        //# C04.row_repeat_expansion_values
+        r is Ok ==> exists|out: Seq<Data>| final(cells)@ == old(cells)@ + out
+            && row_v_ok(expand_v(row_cells(old(reader).events(), old(reader).pos())), out),
+        //# C04.row_repeat_expansion_formulas
+        r is Ok ==> exists|out: Seq<Seq<char>>| strs(final(formulas)@) == strs(old(formulas)@) + out
+            && row_f_ok(expand_f(row_cells(old(reader).events(), old(reader).pos())), out),
+//@@ body
+    let ghost evs = reader.events();
+    let ghost p0 = reader.pos();
+    let ghost c0 = cells@;
+    let ghost f0 = strs(formulas@);
+    let ghost mut done: Seq<CellEl> = Seq::empty();
+    let ghost mut av: Seq<Data> = Seq::empty();
+    let ghost mut af: Seq<Seq<char>> = Seq::empty();
+    proof { axiom_data_clone(); reveal_strlit(""); assert(c0 + av =~= c0); assert(f0 + af =~= f0); assert(Seq::<CellEl>::empty() + row_cells(evs, p0) =~= row_cells(evs, p0)); }
+//@@ loop 0
+        invariant_except_break
+            row_cells(evs, p0) == done + row_cells(evs, reader.pos()),
+        invariant
+            reader.events() == evs, evs == old(reader).events(), c0 == old(cells)@, f0 == strs(old(formulas)@), p0 == old(reader).pos(),
+            cells@ == c0 + av, av + empties(empty_col_repeats as int) =~= expand_v(done),
+            strs(formulas@) == f0 + af, af + emptyf(empty_col_repeats as int) =~= expand_f(done),
+            forall|a: Data, b: Data| call_ensures(<Data as Clone>::clone, (&a,), b) ==> a == b,
+        ensures
+            row_cells(evs, p0) == done,
+        decreases (if reader.pos() <= evs.len() { evs.len() - reader.pos() } else { 0 }),
+//@@ before /match reader\.read_event_into\(row_buf\)/
+        let ghost pb = reader.pos();
+//@@ before /let mut repeats = /
+                let ghost p: nat = pb;
+                let ghost attrs0 = evs[p as int].attrs;
+                let ghost mut found = false;
+                proof {
+                    assert(pb < evs.len());
+                    assert(e.ev() == evs[p as int]);
+                    assert(is_cell_start(evs[p as int]));
+                }
+//@@ loop 1
+                    invariant_except_break
+                        !found && repeats == 1 && rep_scan(attrs0) == rep_scan(__it1.rem()),
+                    invariant
+                        reader.events() == evs, reader.pos() == p + 1, evs == old(reader).events(),
+                    ensures
+                        rep_scan(attrs0) == Some(repeats),
+                    decreases __it1.rem().len(),
+//@@ before /let a = a\.map_err/
+                    let ghost rem0 = __it1.rem();
+//@@ before /break;/
+                        proof { found = true; }
+//@@ before /let \(value, formula, is_closed\) = /
+                let ghost el = cell_el(evs, p);
+//@@ after /let \(value, formula, is_closed\) = [^;]*;/
+                proof {
+                    assert(el.n == repeats && el.v == value && el.f == formula@);
+                }
+                let ghost av1 = av;
+                let ghost af1 = af;
+                let ghost pend = empty_col_repeats;
+//@@ loop 2 it2
+                    invariant
+                        cells@ == c0 + av1 + empties(it2.index@ as int),
+                        strs(formulas@) == f0 + af1 + emptyf(it2.index@ as int),
+//@@ before /formulas\.push\(""\.to_string\(\)\);/
+                    let ghost fv0 = formulas@;
+//@@ after /formulas\.push\(""\.to_string\(\)\);/
+                    proof {
+                        reveal_strlit("");
+                        lemma_strs_push(fv0, formulas@.last());
+                        assert(formulas@ =~= fv0.push(formulas@.last()));
+                        assert(formulas@.last()@ =~= Seq::<char>::empty());
+                        assert((f0 + af1 + emptyf(it2.index@ as int)).push(Seq::<char>::empty()) =~= f0 + af1 + emptyf(it2.index@ + 1));
+                        assert(empties(it2.index@ + 1) =~= empties(it2.index@ as int).push(Data::Empty));
+                        assert(emptyf(it2.index@ + 1) =~= emptyf(it2.index@ as int).push(Seq::<char>::empty()));
+                        assert(cells@ =~= c0 + av1 + empties(it2.index@ + 1));
+                        assert(strs(formulas@) =~~= f0 + af1 + emptyf(it2.index@ + 1));
+                    }
+//@@ before /if value\.is_empty\(\)/
+                let ghost av2 = av1 + empties(pend as int);
+                let ghost af2 = af1 + emptyf(pend as int);
+                proof {
+                    assert(cells@ =~= c0 + av2);
+                    assert(strs(formulas@) =~~= f0 + af2);
+                    assert(av2 =~= expand_v(done));
+                    assert(af2 =~= expand_f(done));
+                    lemma_expand_push(done, el);
+                }
+//@@ loop 3 it3
+                        invariant
+                            cells@ == c0 + av2 + copies_v(it3.index@ as int, value),
+                            strs(formulas@) == f0 + af2 + copies_f(it3.index@ as int, formula@),
+                            forall|a: Data, b: Data| call_ensures(<Data as Clone>::clone, (&a,), b) ==> a == b,
+//@@ before /formulas\.push\(formula\.clone\(\)\);/
+                        let ghost fv0 = formulas@;
+//@@ after /formulas\.push\(formula\.clone\(\)\);/
+                        proof {
+                            lemma_strs_push(fv0, formulas@.last());
+                            assert(formulas@ =~= fv0.push(formulas@.last()));
+                            assert(formulas@.last()@ == formula@);
+                            assert((f0 + af2 + copies_f(it3.index@ as int, formula@)).push(formula@) =~= f0 + af2 + copies_f(it3.index@ + 1, formula@));
+                            assert(copies_v(it3.index@ + 1, value) =~= copies_v(it3.index@ as int, value).push(value));
+                            assert(copies_f(it3.index@ + 1, formula@) =~= copies_f(it3.index@ as int, formula@).push(formula@));
+                            assert(cells@ =~= c0 + av2 + copies_v(it3.index@ + 1, value));
+                            assert(strs(formulas@) =~~= f0 + af2 + copies_f(it3.index@ + 1, formula@));
+                        }
+//@@ before /if !is_closed \{/
+                proof {
+                    if (value is Empty) && formula@.len() == 0 {
+                        assert(formula@ =~= Seq::<char>::empty());
+                        assert(copies_v(repeats as int, value) =~= empties(repeats as int));
+                        assert(copies_f(repeats as int, formula@) =~= emptyf(repeats as int));
+                        av = av2; af = af2;
+                    } else {
+                        assert(empties(0) =~= Seq::<Data>::empty());
+                        assert(emptyf(0) =~= Seq::<Seq<char>>::empty());
+                        av = av2 + copies_v(repeats as int, value); af = af2 + copies_f(repeats as int, formula@);
+                        assert(av + empties(0) =~= av);
+                        assert(af + emptyf(0) =~= af);
+                    }
+                    done = done.push(el);
+                }
+//@@ after /reader\.read_to_end_into\(e\.name\(\), cell_buf\)\?;\s*\}/
+                proof {
+                    assert(reader.pos() == cell_next(evs, p));
+                    assert(cell_next(evs, p) > p);
+                    assert(row_cells(evs, p) =~= seq![el] + row_cells(evs, cell_next(evs, p)));
+                    assert(done =~= done.drop_last().push(el));
+                    assert(done.drop_last() + (seq![el] + row_cells(evs, cell_next(evs, p))) =~= done + row_cells(evs, cell_next(evs, p)));
+                }
+//@@ before /\n    Ok\(\(\)\)/
+    proof {
+        let fullv = expand_v(row_cells(evs, p0));
+        assert(fullv =~= av + empties(empty_col_repeats as int));
+        assert(row_v_ok(fullv, av));
+        let fullf = expand_f(row_cells(evs, p0));
+        assert(fullf =~= af + emptyf(empty_col_repeats as int));
+        assert(row_f_ok(fullf, af));
+    }
 //@@ end
 
 } // verus!
